@@ -1,6 +1,7 @@
 """Concrete-mode E: same API as pyvc.sym.SymE, but values are ordinary python values and E.call /
 E.method run the *real* pymodbus code natively (under /venv/bin/python, no solver).  Used for
 (1) replay of counter-models, (2) executable twins / bounded stand-ins, (3) engine cross-checks."""
+import os
 import copy, importlib, random, sys
 from . import lang as L
 
@@ -438,17 +439,41 @@ class ConcE:
         return a is b or a == b
 
 
+class CaseTimeout(BaseException):
+    """the real code did not come back within the per-case limit"""
+
+
+CASE_SECONDS = int(os.environ.get('PYVC_CASE_SECONDS', '20'))
+
+
 def run_concrete(unit, inputs=None, gen=None):
-    """-> (status, results, used): status 'ok' | 'vacuous' | 'error:<text>'"""
+    """-> (status, results, used): status 'ok' | 'vacuous' | 'error:<text>'.  A case that does not return within CASE_SECONDS is
+    a failed clause 'unit:terminates' carrying the inputs drawn so far (a hang of the real code is an observation, not a crash
+    of the checker)."""
+    import signal
     E = ConcE(inputs, gen)
     undo = install_pre_checks(unit, E)
+
+    def on_alarm(signum, frame):
+        raise CaseTimeout()
+    old = None
+    try:
+        old = signal.signal(signal.SIGALRM, on_alarm)
+        signal.setitimer(signal.ITIMER_REAL, CASE_SECONDS)
+    except ValueError:
+        old = None                                  # not in the main thread: no limit
     try:
         unit.fn(E)
     except Vacuous:
         return 'vacuous', E.results, E.used
     except ConcRaised as r:
         E.results.append(('unit:no-unhandled-exception[%s]' % r.cls, False, {}))
+    except CaseTimeout:
+        E.results.append(('unit:terminates[within %ds]' % CASE_SECONDS, False, {}))
     finally:
+        if old is not None:
+            signal.setitimer(signal.ITIMER_REAL, 0)
+            signal.signal(signal.SIGALRM, old)
         for (owner, name, orig) in undo:
             setattr(owner, name, orig)
     return 'ok', E.results, E.used
